@@ -543,3 +543,33 @@ theorem mcanonB_sound (l : List StatE) (h : mcanonB l = true) : Canon l := by
   simpa using mcanonGo_sound l [] h pre z post hl
 
 end Fsm.C19F
+
+namespace Fsm.C19F
+
+/-- ids are registered for selected entries that can carry content, and for nothing else -/
+theorem files_selected (fixed : Bool) (sel : Path → Bool) : ∀ (es : List StatE) (s : MetaSt),
+    (∀ pn ∈ s.files, sel pn.1 = true) →
+    ∀ pn ∈ (es.foldl (metaStep fixed sel) s).files, sel pn.1 = true := by
+  intro es
+  induction es with
+  | nil => intro s h; exact h
+  | cons e es ih =>
+    intro s h
+    rw [List.foldl_cons]
+    apply ih
+    intro pn hpn
+    unfold metaStep at hpn
+    by_cases hm : e.path = metaNameB
+    · simp only [hm, if_true] at hpn
+      cases fixed <;> exact h pn (by simpa using hpn)
+    · simp only [hm, if_false, Fix.f6b, if_true] at hpn
+      cases hs : sel e.path <;> cases hd : e.isDir <;> cases hc : e.canRequestData <;>
+        simp only [hs, hd, hc, Bool.not_true, Bool.not_false, Bool.and_true, Bool.and_false,
+          if_true, if_false, Bool.false_eq_true] at hpn <;>
+        first
+        | exact h pn hpn
+        | (rcases List.mem_append.mp hpn with h1 | h1
+           · exact h pn h1
+           · simp only [List.mem_singleton] at h1; subst h1; exact hs)
+
+end Fsm.C19F
